@@ -695,6 +695,14 @@ func (vc *VC) evalUnary(st *State, x *ast.UnaryExpr) Val {
 			return Val{S: fmt.Sprintf("(- (- %s) 1)", v.S), Ty: t, Sort: "Int"}
 		}
 	case token.ARROW:
+		if vc.contract != nil && vc.contract.Options["recv-havoc"] != "" {
+			// a received value is unconstrained; what is assumed about it is stated by `recv N: assume ...` clauses
+			vc.eval(st, x.X)
+			vc.recvOrd++
+			vc.pendingRecv = vc.recvOrd
+			vc.noteAssumption(fmt.Sprintf("channel receive #%d in %s: value unconstrained except for the contract's recv-assume clause", vc.recvOrd, vc.fn.Key))
+			return vc.havocVal(st, vc.typeOf(x), "recv")
+		}
 		vc.concurrency(x.Pos(), "channel receive")
 		return vc.havocVal(st, vc.typeOf(x), "recv")
 	}
